@@ -183,8 +183,9 @@ Pass2(tmp, e, h, rates, avgs, i) ==
 \* exactly the input amount -- over the naturals, not modulo 2^64; a conversion changes the asset.  An entry with an
 \* ill-formed transaction is no batch at all: it is ignored like any other non-canonical content.
 OutSum(tx) == SumSet([j \in 1..Len(tx.to) |-> tx.to[j].amt], 1..Len(tx.to))
-WellFormedTx(tx) == IF tx.kind = "conv" THEN tx.conv # tx.t
-                    ELSE Len(tx.to) >= 1 /\ NLeq(OutSum(tx), tx.amt) /\ NLeq(tx.amt, OutSum(tx))
+WellFormedTx(tx) == /\ NFitsI64(tx.amt)            \* TransactionBatch.Validate: "input value exceeded int64"
+                    /\ IF tx.kind = "conv" THEN tx.conv # tx.t
+                       ELSE Len(tx.to) >= 1 /\ NLeq(OutSum(tx), tx.amt) /\ NLeq(tx.amt, OutSum(tx))
 WellFormed(e) == \A i \in 1..Len(e.txs) : WellFormedTx(e.txs[i])
 OutputsExceedInput(e) == \E i \in 1..Len(e.txs) : e.txs[i].kind = "xfer" /\ ~NLeq(OutSum(e.txs[i]), e.txs[i].amt)
 
